@@ -13,7 +13,7 @@ use crate::models::mix::{MixWorld, NodeCfg, Target};
 use crate::models::playback::StartM;
 use crate::rig::catch;
 use kira::clock::ClockTime;
-use kira::StartTime;
+use kira::{Easing, StartTime, Tween};
 use std::time::Duration;
 
 pub struct C12;
@@ -83,9 +83,12 @@ impl Check for C12 {
 		Level::ModelChecking
 	}
 	fn num_cases(&self, _tier: Tier) -> u64 {
-		ncases()
+		ncases() + E2_NAMES.len() as u64
 	}
 	fn describe(&self, tier: Tier, idx: u64) -> String {
+		if idx >= ncases() {
+			return format!("E2 interleavings: {}", E2_NAMES[(idx - ncases()) as usize]);
+		}
 		let (s, pv, first) = decode(idx);
 		format!(
 			"tree {:?} persistence bits {:#05b} first letter '{}', all continuations to depth {} (each letter followed by a 3-frame callback, internal buffer 2)",
@@ -96,11 +99,14 @@ impl Check for C12 {
 		)
 	}
 	fn sig_hint(&self, _tier: Tier, idx: u64) -> String {
+		if idx >= ncases() {
+			return format!("E2 #{}", idx - ncases());
+		}
 		let (s, pv, _) = decode(idx);
 		format!("tree {:?} persist {:#05b}", SHAPES[s], pv)
 	}
 	fn rule(&self) -> String {
-		"3 tree shapes (chain of 2, chain of 3, parent with two children), every track carrying an index-coded looping sound, x 3 persistence variants x all histories of length <= depth over {none, start clock, remove clock} + per track {pause 0/2f, resume 0/2f, resume_at delayed/clock, drop handle, finish sound, add nested child}; after every callback: exact audio vs the tree-freeze reference (positions are read off the index-coded ramps), TrackHandle::state() of every live handle inside catch_unwind. states = distinct (adopted, marked, removed, pause state) vectors; non-trivial = histories in which some track left the Playing state or was removed".into()
+		"3 tree shapes (chain of 2, chain of 3, parent with two children), every track carrying an index-coded looping sound, x 3 persistence variants x all histories of length <= depth over {none, start clock, remove clock} + per track {pause 0/2f, resume 0/2f, resume_at delayed/clock, drop handle, finish sound, add nested child}; after every callback: exact audio vs the tree-freeze reference (positions are read off the index-coded ramps), TrackHandle::state() of every live handle inside catch_unwind. plus E2: all interleavings (preemption bound 2 / 3) of a thread reading TrackHandle::state() three times with the audio thread running 2 callbacks, in 4 life-cycle situations (pause fade in flight, resume fade in flight, scheduled resume whose clock has just been removed, scheduled resume falling due). states = distinct (adopted, marked, removed, pause state) vectors; non-trivial = histories in which some track left the Playing state or was removed".into()
 	}
 	fn assumptions(&self) -> Vec<String> {
 		vec![
@@ -115,6 +121,10 @@ impl Check for C12 {
 		tier.pick(60_000, 1_200_000)
 	}
 	fn run_case(&self, tier: Tier, idx: u64, ctx: &mut Ctx) {
+		if idx >= ncases() {
+			e2_state(tier, idx - ncases(), ctx);
+			return;
+		}
 		let (s, pv, first) = decode(idx);
 		let mut seq = vec![first];
 		enumerate(s, pv, &mut seq, depth(tier), ctx);
@@ -283,4 +293,137 @@ fn run_history(shape: usize, pv: u8, seq: &[usize], ctx: &mut Ctx) {
 	}
 	ctx.outcome(w.state_hash() % 4096);
 	ctx.sample(ctx.traces, || hist(shape, pv, seq));
+}
+
+// ---------------------------------------------------------------------------------------------
+// E2: "querying it never panics" with the query on another thread than the audio callback
+
+const E2_NAMES: [&str; 4] = [
+	"reader(state() x3) || audio(2 callbacks) while a 1-frame pause fade completes",
+	"reader(state() x3) || audio(2 callbacks) while a paused track resumes",
+	"reader(state() x3) || audio(2 callbacks) after pause; resume_at(clock time); the clock's handle dropped",
+	"reader(state() x3) || audio(2 callbacks) while a resume_at(delayed 1 frame) falls due",
+];
+
+fn e2_state(tier: Tier, which: u64, ctx: &mut Ctx) {
+	use crate::rig;
+	use crate::sched::{self, Config, Exec};
+	use kira::track::{MainTrackBuilder, TrackBuilder, TrackPlaybackState};
+	use std::sync::{Arc, Mutex};
+	fn filt(s: &'static str) -> bool {
+		s.starts_with("track.state.") || s.starts_with("cmd.") || s.starts_with("tb.")
+	}
+	let cfg = Config { filter: filt, horizon: 4000, max_spin_rounds: 8, record_sites: true, ..Default::default() };
+	#[derive(Debug, Clone, Default, PartialEq)]
+	struct Obs {
+		reads: Vec<String>,
+		monitors: Vec<String>,
+	}
+	let frames = |n: f64| Tween { start_time: StartTime::Immediate, duration: Duration::from_secs_f64(n / SR as f64), easing: Easing::Linear };
+	let mut body = |prefix: &[u8]| -> (sched::RunResult, Obs) {
+		let mut m = rig::manager(SR, 1, rig::caps(2), MainTrackBuilder::new());
+		let mut buf = vec![0.0f32; 2];
+		let mut t = m.add_sub_track(TrackBuilder::new()).expect("track");
+		let mut clock = Some(m.add_clock(kira::clock::ClockSpeed::TicksPerSecond(1.0)).expect("clock"));
+		rig::callback(&mut m, &mut buf, 1, 2);
+		match which {
+			0 => t.pause(frames(1.0)),
+			1 => {
+				t.pause(frames(0.0));
+				rig::callback(&mut m, &mut buf, 1, 2);
+				t.resume(frames(1.0));
+			}
+			2 => {
+				t.pause(frames(0.0));
+				t.resume_at(StartTime::ClockTime(kira::clock::ClockTime { clock: clock.as_ref().unwrap().id(), ticks: 50, fraction: 0.0 }), frames(0.0));
+				rig::callback(&mut m, &mut buf, 1, 2);
+				clock = None;
+			}
+			_ => {
+				t.pause(frames(0.0));
+				rig::callback(&mut m, &mut buf, 1, 2);
+				t.resume_at(StartTime::Delayed(Duration::from_secs_f64(1.0 / SR as f64)), frames(1.0));
+			}
+		}
+		let mut renderer = m.backend_mut().renderer.take().unwrap();
+		let obs = Arc::new(Mutex::new(Obs::default()));
+		let back = Arc::new(Mutex::new(None));
+		let keep = Arc::new(Mutex::new(None));
+		let mut ex = Exec::begin(&cfg, prefix);
+		{
+			let (obs, keep) = (obs.clone(), keep.clone());
+			ex.spawn("reader", move || {
+				for _ in 0..3 {
+					let r = rig::catch(|| t.state());
+					obs.lock().unwrap().reads.push(match r {
+						Ok(s) => format!("{:?}", s),
+						Err(p) => format!("PANIC: {}", p),
+					});
+				}
+				*keep.lock().unwrap() = Some(t);
+			});
+		}
+		{
+			let (obs, back) = (obs.clone(), back.clone());
+			ex.spawn("audio", move || {
+				let mut buf = [0.0f32; 2];
+				for _ in 0..2 {
+					let rep = rig::callback_on(&mut renderer, &mut buf, 1, 2);
+					if !rep.ok() {
+						obs.lock().unwrap().monitors.push(format!("{:?}", rep));
+					}
+				}
+				*back.lock().unwrap() = Some(renderer);
+			});
+		}
+		let res = ex.run();
+		let o = obs.lock().unwrap().clone();
+		let r = back.lock().unwrap().take();
+		drop(r);
+		drop(keep);
+		drop(clock);
+		drop(m);
+		let _ = TrackPlaybackState::Playing;
+		(res, o)
+	};
+	let mut outcomes = std::collections::HashSet::new();
+	let mut fails: Vec<(String, String)> = vec![];
+	let mut nontrivial = 0u64;
+	let mut judge = |res: &sched::RunResult, o: &Obs, choices: &[u8]| {
+		outcomes.insert(hash64(&format!("{:?}", o)));
+		if choices.iter().any(|c| *c != 0) {
+			nontrivial += 1;
+		}
+		for p in &res.panics {
+			fails.push((format!("panic in a controlled thread: {} :: E2 #{}", p, which), sched::fmt_schedule(res)));
+		}
+		if let Some(mn) = o.monitors.first() {
+			fails.push((format!("a callback racing with TrackHandle::state() panics, allocates or writes an ill-formed sample :: E2 #{}", which), format!("{}; {}", mn, sched::fmt_schedule(res))));
+		}
+		if let Some(r) = o.reads.iter().find(|r| r.starts_with("PANIC")) {
+			fails.push((
+				format!("TrackHandle::state() panics when it is read while the audio thread publishes the state :: E2 #{}", which),
+				format!("reads {:?} ({}); {}", o.reads, r, sched::fmt_schedule(res)),
+			));
+		}
+	};
+	let stats = sched::explore(tier.pick(Some(2), Some(3)), 3_000_000, &mut body, &mut judge);
+	if let Some(e) = stats.error {
+		ctx.fail(format!("MACHINERY: scheduler error: {}", e), "");
+	}
+	ctx.schedules += stats.schedules;
+	ctx.evals += stats.schedules;
+	ctx.traces += stats.schedules;
+	ctx.transitions += stats.schedules * stats.max_points as u64;
+	ctx.count(&format!("e2_schedules[#{}]", which), stats.schedules);
+	ctx.count(&format!("e2_max_points[#{}]", which), stats.max_points as u64);
+	ctx.count("e2_capped", stats.capped as u64);
+	for o in outcomes {
+		ctx.outcome(o);
+		ctx.state(o);
+	}
+	ctx.nontrivial_extra += nontrivial;
+	for (s, d) in fails {
+		ctx.fail(s, d);
+	}
 }
